@@ -89,7 +89,7 @@ func init() {
 		rulePluralDelegates(inMVT, 4),
 		ruleProtoTables,
 		ruleMemberLoops(inMVT, 18, 0),
-		ruleCompose(concatSpecs(mvtMarshalSpecs, mvtIDSpecs), 19),
+		ruleCompose(concatSpecs(mvtMarshalSpecs, mvtIDSpecs), 16),
 	)
 
 	register("C04",
@@ -176,7 +176,7 @@ func init() {
 		ruleLoopShapes(inPkgs("maptile/tilecover."), 1, 3),
 		ruleDispatchDelegation([]string{"maptile/tilecover"}, 6),
 		ruleCompose(coverMemberSpecs, 10),
-		ruleCompose(coverLineSpecs, 10),
+		ruleCompose(coverLineSpecs, 0), // no floor: a form the judge cannot read is kept as unconfirmed (requires), a missing entry is undecided
 	)
 
 	register("C18",
